@@ -1,8 +1,249 @@
 package main
 
-// tryReplay turns a solver model into inputs for the real function and runs it (see replay
-// templates under /verif/replay). Returns true when the real code was shown to violate the
-// obligation's oracle.
-func (x *Exec) tryReplay(repo, verif, prop, name string, o *Obligation, model, replayPath string) bool {
-	return false
+// Replay of a failed obligation against the real code.
+//
+// For every function family that has one, /verif/replay/<family>_test.go.txt is an in-package Go test
+// (injected with `go test -overlay`, nothing is written into /repo) holding executable oracles written
+// from the property statements. When an obligation of such a function is not discharged:
+//
+//   1. if the solver returned a model (`sat`), the values it gives to the function's scalar inputs and
+//      to the sizes of its slices / maps are read back with (get-value ...) and handed to the test as
+//      hints: the test first tries inputs that agree with the hints (model-guided);
+//   2. the test then enumerates / samples small inputs of the real function deterministically and
+//      checks the oracles (bounded search, labelled as such).
+//
+// A failing input makes the test print `REPLAY-FAIL ...`; the replay file records the command, the
+// hints and that output, and the VIOLATION line carries no `no-failing-input-found` suffix.
+
+import (
+	"context"
+	"encoding/json"
+	"fmt"
+	"go/types"
+	"os"
+	"os/exec"
+	"path/filepath"
+	"regexp"
+	"strings"
+	"time"
+
+	"golang.org/x/tools/go/ssa"
+)
+
+type replayFamily struct {
+	Funcs    []string `json:"funcs"`    // function names as in props.json (prefix match when ending in *)
+	Pkg      string   `json:"pkg"`      // package directory relative to the repository root
+	Template string   `json:"template"` // file under /verif/replay
+	Test     string   `json:"test"`     // test function to run
+}
+
+type replayIndex struct {
+	Families []replayFamily `json:"families"`
+}
+
+func (x *Exec) replayFamilyFor(verif, fn string) *replayFamily {
+	var idx replayIndex
+	b, err := os.ReadFile(filepath.Join(verif, "replay", "index.json"))
+	if err != nil || json.Unmarshal(b, &idx) != nil {
+		return nil
+	}
+	for i := range idx.Families {
+		for _, f := range idx.Families[i].Funcs {
+			if f == fn || (strings.HasSuffix(f, "*") && strings.HasPrefix(fn, strings.TrimSuffix(f, "*"))) {
+				return &idx.Families[i]
+			}
+		}
+	}
+	return nil
+}
+
+// modelHints evaluates, in a model of the failed query, the scalar inputs of fn and the sizes of its
+// slice and map inputs (one level into pointed-to structs).
+func (x *Exec) modelHints(fn *ssa.Function, o *Obligation, cfg solveCfg) map[string]string {
+	if fn == nil || o == nil || o.Result != "sat" || o.Raw != "" {
+		return nil
+	}
+	type probe struct{ name, term string }
+	var probes []probe
+	suffix := "_" + sanitize(strings.ReplaceAll(funcKey(fn), ".", "_"))
+	var add func(name, term string, T types.Type, depth int)
+	add = func(name, term string, T types.Type, depth int) {
+		switch u := T.Underlying().(type) {
+		case *types.Basic:
+			if u.Info()&(types.IsInteger|types.IsFloat|types.IsBoolean|types.IsString) != 0 {
+				probes = append(probes, probe{name, term})
+			}
+		case *types.Slice:
+			probes = append(probes, probe{name + ".len", app("s_len", term)})
+		case *types.Map:
+			if _, ok := x.reg.funcs["MC_0"]; ok || x.arrSort("MC") != "" {
+				probes = append(probes, probe{name + ".card", app("select", "MC_0", term)})
+			}
+		case *types.Pointer:
+			if depth > 0 {
+				return
+			}
+			if st, ok := u.Elem().Underlying().(*types.Struct); ok {
+				func() {
+					defer func() { recover() }()
+					hn, _ := x.heapName(u.Elem())
+					si := x.structInfo(u.Elem())
+					obj := app("select", hn+"_0", term)
+					for i := 0; i < st.NumFields(); i++ {
+						add(name+"."+st.Field(i).Name(), app(si.fields[i], obj), st.Field(i).Type(), depth+1)
+					}
+				}()
+			}
+		}
+	}
+	for _, p := range fn.Params {
+		if p.Name() == "" || p.Name() == "_" {
+			continue
+		}
+		if _, isSig := p.Type().Underlying().(*types.Signature); isSig {
+			continue
+		}
+		add(p.Name(), "p_"+sanitize(p.Name())+suffix, p.Type(), 0)
+	}
+	if len(probes) == 0 {
+		return nil
+	}
+	text := x.queryText(o, x.reg.prelude(), false)
+	hints := map[string]string{}
+	// one get-value per probe so that a term the query never declared does not spoil the others
+	var b strings.Builder
+	b.WriteString(strings.TrimSuffix(strings.TrimSpace(text), "(check-sat)"))
+	b.WriteString("(check-sat)\n")
+	for _, p := range probes {
+		b.WriteString("(echo \"@" + p.name + "\")\n(get-value (" + p.term + "))\n")
+	}
+	file := filepath.Join(cfg.dir, "hints_"+sanitize(o.Name)+".smt2")
+	os.MkdirAll(cfg.dir, 0o755)
+	os.WriteFile(file, []byte(b.String()), 0o644)
+	defer os.Remove(file)
+	ctx, cancel := context.WithTimeout(context.Background(), 40*time.Second)
+	defer cancel()
+	out, _ := exec.CommandContext(ctx, "z3-new", "-T:30", file).CombinedOutput()
+	lines := strings.Split(string(out), "\n")
+	if len(lines) == 0 || strings.TrimSpace(lines[0]) != "sat" {
+		return nil
+	}
+	valRe := regexp.MustCompile(`^\(\(.* (.+)\)\)$`)
+	for i := 1; i+1 < len(lines); i++ {
+		l := strings.TrimSpace(lines[i])
+		if !strings.HasPrefix(l, "@") && !strings.HasPrefix(l, "\"@") {
+			continue
+		}
+		name := strings.Trim(l, "\"@")
+		v := strings.TrimSpace(lines[i+1])
+		if strings.HasPrefix(v, "(error") {
+			continue
+		}
+		if m := valRe.FindStringSubmatch(v); m != nil {
+			hints[name] = smtValue(m[1])
+		} else if j := strings.LastIndex(v, " "); j > 0 {
+			hints[name] = smtValue(strings.TrimSuffix(v[j+1:], "))"))
+		}
+	}
+	return hints
+}
+
+// smtValue renders a numeral / rational / boolean of a model as a Go-readable literal.
+func smtValue(s string) string {
+	s = strings.TrimSpace(s)
+	neg := false
+	if strings.HasPrefix(s, "(- ") && strings.HasSuffix(s, ")") {
+		neg = true
+		s = strings.TrimSpace(s[3 : len(s)-1])
+	}
+	if strings.HasPrefix(s, "(/ ") && strings.HasSuffix(s, ")") {
+		parts := strings.Fields(s[3 : len(s)-1])
+		if len(parts) == 2 {
+			var a, b float64
+			fmt.Sscan(parts[0], &a)
+			fmt.Sscan(parts[1], &b)
+			if b != 0 {
+				s = fmt.Sprintf("%g", a/b)
+			}
+		}
+	}
+	if neg {
+		s = "-" + s
+	}
+	return s
+}
+
+// tryReplay runs the family's replay test against the real package. Returns true when the real code
+// was shown to violate an oracle (the failing input is appended to the replay file).
+func (x *Exec) tryReplay(repo, verif, prop, name string, o *Obligation, fn *ssa.Function, cfg solveCfg, replayPath string) bool {
+	fnName := o.Fn
+	if i := strings.Index(fnName, "$"); i >= 0 {
+		fnName = fnName[:i] // a function literal is replayed through its enclosing function
+	}
+	fam := x.replayFamilyFor(verif, fnName)
+	if fam == nil {
+		appendFile(replayPath, "\n--- replay ---\nno replay harness is registered for "+fnName+" (see /verif/replay/index.json)\n")
+		return false
+	}
+	hints := x.modelHints(fn, o, cfg)
+	hj, _ := json.Marshal(hints)
+	ov := filepath.Join(filepath.Dir(replayPath), "overlay_"+sanitize(fam.Template)+".json")
+	target := filepath.Join(repo, fam.Pkg, "zz_verif_replay_test.go")
+	src := filepath.Join(verif, "replay", fam.Template)
+	ovj, _ := json.Marshal(map[string]map[string]string{"Replace": {target: src}})
+	os.WriteFile(ov, ovj, 0o644)
+	tag := o.Tag
+	if tag == "" {
+		tag = o.Kind
+	}
+	args := []string{"test", "-overlay", ov, "-vet=off", "-count=1", "-timeout", "170s", "-run", "^" + fam.Test + "$", "./" + fam.Pkg + "/"}
+	env := []string{"GOFLAGS=-mod=mod", "GOPROXY=off", "GOSUMDB=off", "GOTOOLCHAIN=local",
+		"VERIF_REPLAY_FUNC=" + fnName, "VERIF_REPLAY_PROP=" + prop, "VERIF_REPLAY_TAG=" + tag, "VERIF_REPLAY_HINTS=" + string(hj)}
+	ctx, cancel := context.WithTimeout(context.Background(), 200*time.Second)
+	defer cancel()
+	cmd := exec.CommandContext(ctx, "go", args...)
+	cmd.Dir = repo
+	cmd.Env = append(os.Environ(), env...)
+	out, _ := cmd.CombinedOutput()
+	var fails []string
+	for _, l := range strings.Split(string(out), "\n") {
+		if i := strings.Index(l, "REPLAY-FAIL"); i >= 0 {
+			fails = append(fails, strings.TrimSpace(l[i:]))
+		}
+	}
+	var b strings.Builder
+	b.WriteString("\n--- replay against the real code ---\n")
+	fmt.Fprintf(&b, "harness: /verif/replay/%s (oracles written from the property statement), injected as %s with go test -overlay\n", fam.Template, target)
+	fmt.Fprintf(&b, "replay-dir: %s\nreplay-env: %s\nreplay-cmd: go %s\n", repo, strings.Join(env[4:], " "), strings.Join(args, " "))
+	if len(hints) > 0 {
+		fmt.Fprintf(&b, "inputs read from the solver's model (scalars and sizes): %s\n", string(hj))
+	} else {
+		b.WriteString("the solver returned no usable model for this obligation: the inputs below come from the harness's bounded search over small inputs of the real function\n")
+	}
+	if len(fails) > 0 {
+		b.WriteString("result: the real code violates the oracle on a concrete input:\n")
+		for i, f := range fails {
+			if i < 5 {
+				b.WriteString("  " + f + "\n")
+			}
+		}
+	} else {
+		b.WriteString("result: no failing input found by the harness\n")
+		tail := strings.Split(strings.TrimSpace(string(out)), "\n")
+		if len(tail) > 6 {
+			tail = tail[len(tail)-6:]
+		}
+		b.WriteString("  " + strings.Join(tail, "\n  ") + "\n")
+	}
+	appendFile(replayPath, b.String())
+	return len(fails) > 0
+}
+
+func appendFile(path, s string) {
+	f, err := os.OpenFile(path, os.O_APPEND|os.O_WRONLY|os.O_CREATE, 0o644)
+	if err != nil {
+		return
+	}
+	defer f.Close()
+	f.WriteString(s)
 }
